@@ -147,6 +147,7 @@ def spec_hostport(url: str):
 
 
 class _Base(Family):
+    realtime = True     # runs on the wall clock (sockets, threads): a failure is re-run once before it counts (core.run_family)
     def _router(self, locs, fresh=False):
         """router (+ log of the routes it chose) for a configuration; `fresh`: a new deployment, nothing remembered from earlier cases"""
         from nauyaca.protocol.response import GeminiResponse
